@@ -9,6 +9,8 @@ from symx.hx import And, Or, Not
 from pico8.game.formatter import p8
 
 ENCODED = ['pico8.game.formatter.p8.process_includes',
+           'pico8.game.formatter.p8.P8Formatter.from_file (cart with include '
+           'lines, do_includes on and off)',
            'pico8.game.formatter.p8.lines_for_tab',
            'pico8.game.formatter.p8.TAB_LINE_RE / INCLUDE_LINE_RE',
            'pico8.game.formatter.p8.P8Formatter.from_file (include of a .p8)']
@@ -159,6 +161,76 @@ def splice(x, p):
             'unchanged and in place', b''.join(out) == b''.join(exp))
 
 
+P8_HEAD = b'pico-8 cartridge // http://www.pico-8.com\nversion 8\n__lua__\n'
+INC_ALL = [b't0=0\n', b'-->8\n', b't1=1\n', b'#include nested.lua\n',
+           b'-->8\n', b't2=3\n']
+
+
+def load(x, p):
+    """The property as the user meets it: P8Formatter.from_file on a cart
+    whose code has include lines (indented or not, one or two, next to
+    ordinary lines) yields the spliced code; with do_includes=False (how
+    included carts are read) the lines stay as they are and nothing is
+    opened."""
+    kind = p['kind']
+    pre = x.bytes('pre', p.get('npre', 0))
+    for k in range(len(pre)):
+        x.assume(Or(pre[k] == 32, pre[k] == 9))
+    pos = x.choice('pos', [0, 1, 2])
+    two = x.choice('two', [False, True])
+    do_inc = x.choice('do_includes', [True, False])
+    name = 'inc.lua' if kind == 'lua' else 'inc.p8'
+    sel = x.choice('tab', ['', ':1']) if kind != 'lua' else ''
+    inc_line = pre + ('#include ' + name + sel + '\n').encode()
+    cart = [b'a=1\n', b'b=2\n']
+    cart.insert(pos, inc_line)
+    if two:
+        cart.append(b'  #include ' + name.encode() + b'\n')
+    text = P8_HEAD + b''.join(cart) + b'__gfx__\n'
+    opened = []
+
+    def fake_open(path, mode='r', *a, **k):
+        opened.append(path)
+        if path.endswith('.lua'):
+            return hx.MemStream(b'x=1\ny=2\n')
+        return hx.MemStream(P8_TEXT)
+    hx.patch(x, os.path, 'isfile', lambda path: True)
+    hx.patch(x, builtins, 'open', fake_open)
+    try:
+        g = p8.P8Formatter.from_file(hx.MemStream(text),
+                                     filename='/w/r/c.p8',
+                                     do_includes=do_inc)
+        code = b''.join(g.lua.to_lines())
+    except Exception as e:
+        if do_inc:
+            x.check('a cart with include lines loads', False, info=repr(e))
+        else:
+            # '#include' is not Lua: a cart read without include processing
+            # may be refused by the lexer, it must not open anything
+            x.check('nothing opened without include processing',
+                    len(opened) == 0)
+        return
+    if not do_inc:
+        x.check('nothing opened without include processing',
+                len(opened) == 0)
+        return
+    if kind == 'lua':
+        inc = [b'x=1\n', b'y=2\n']
+        inc2 = inc
+    else:
+        inc = INC_ALL if sel == '' else [b't1=1\n', b'#include nested.lua\n']
+        inc2 = INC_ALL
+    exp = [b'a=1\n', b'b=2\n']
+    exp[pos:pos] = inc
+    if two:
+        exp += inc2
+    x.out('code', code)
+    x.check('loaded code = cart code with every include line replaced by '
+            'its target', code == b''.join(exp))
+    x.check('each include opens its target once',
+            len(opened) == (2 if two else 1))
+
+
 Q = {'_budget': 600}
 HARNESSES = [
     Harness('tabs', tabs, quick=[dict(Q, n=2, L=5), dict(Q, n=3, L=4)],
@@ -174,4 +246,7 @@ HARNESSES = [
                    dict(Q, kind='lua', npre=1), dict(Q, kind='lua', npre=2),
                    dict(Q, kind='lua', missing=True),
                    dict(Q, kind='lua', missing=True, npre=1)]),
+    Harness('load', load,
+            quick=[dict(Q, kind='lua', npre=0), dict(Q, kind='lua', npre=2),
+                   dict(Q, kind='p8', npre=1)]),
 ]
